@@ -1,7 +1,8 @@
-import json,sys
-sys.path.insert(0,'/verif')
+import json,os,sys
+ROOT=os.path.dirname(os.path.dirname(os.path.abspath(__file__)))
+sys.path.insert(0,ROOT)
 from checker import props
-props_all=[json.loads(l) for l in open('/verif/properties.jsonl')]
+props_all=[json.loads(l) for l in open(os.path.join(ROOT,'properties.jsonl'))]
 checks=[]
 for pid,s in sorted(props.PROPS.items()):
     checks.append({"property_id":pid,"quick_cmd":f"./check {pid} --tier quick","thorough_cmd":f"./check {pid} --tier thorough",
@@ -17,5 +18,5 @@ m={"version":1,"setup_cmd":"./setup.sh",
  "engines":[{"name":"pyvc","path":"pyvc/","serves_properties":sorted(props.PROPS),"kind_free_text":"own VC generator: Python ast of the real source -> SMT-LIB (universal value sort) -> z3 5.1 / z3 4.8.12 / cvc5; sidecar contracts; runtime monitors of the same contracts for replay and the bounded tier"}],
  "checks":checks,"not_applicable":na,
  "notes":"fix: commits in /repo are unguarded repairs of genuine defects (known_findings.json lists them as fixed). Evidence level is `other` wherever part of the property is covered only by the bounded stand-in."}
-json.dump(m,open('/verif/MANIFEST.json','w'),indent=1)
+json.dump(m,open(os.path.join(ROOT,'MANIFEST.json'),'w'),indent=1)
 print(len(checks),'checks',len(na),'n/a')
